@@ -18,4 +18,9 @@ class C10(E1Prop):
         return any(t in r.tags for t in self.nontrivial_tags)
 
 
+    def make_history(self, rng):
+        from ..batchdb import gen
+        return gen.history(rng, special=0.2, weights={'dead-instance-attempt': 6.0, 'late-schedule': 2.0})
+
+
 PROP = C10()
